@@ -6,6 +6,8 @@ from .fam_tracker import L, A
 
 
 class ConcFamily(Family):
+    race = True
+    race_cases = 40
     harness_mode = ["conc"]
     driver_args = ["conc"]
     uses_gen = ("NONE",)
@@ -76,8 +78,8 @@ class ConcFamily(Family):
             [[A(100, "1", "l", "77"), L(77, "alice", tag="5")], [A(101, "1", "o", "77"), A(102, "1", "o", "77")]],
         ]
         for th in base:
-            cs.append({"threads": th, "max": 2500 if tier == "quick" else 200000})
-        n = 12 if tier == "quick" else 150
+            cs.append({"threads": th, "max": 2500 if tier == "quick" else 30000})
+        n = 12 if tier == "quick" else 60
         for _ in range(n):
             nth = 2 + rng.below(2)
             pool = []
@@ -100,7 +102,7 @@ class ConcFamily(Family):
                     total += 1
             th = [t for t in rng_threads if t]
             if len(th) >= 2:
-                cs.append({"threads": th, "max": 800 if tier == "quick" else 50000})
+                cs.append({"threads": th, "max": 800 if tier == "quick" else 5000})
         return cs
 
     def health_cases(self, tier, rng):
@@ -113,13 +115,13 @@ class ConcFamily(Family):
             [["add:" + a, "ready:" + a, "add:" + a], ["get"], ["ready:" + a]],
         ]
         for th in base:
-            cs.append({"threads": th, "max": 3000 if tier == "quick" else 100000})
-        for _ in range(8 if tier == "quick" else 100):
+            cs.append({"threads": th, "max": 3000 if tier == "quick" else 30000})
+        for _ in range(8 if tier == "quick" else 50):
             th = []
             for _ in range(2 + rng.below(2)):
                 th.append([rng.choice(["add:" + a, "add:" + b, "ready:" + a, "ready:" + b]) for _ in range(1 + rng.below(2))])
             th.append(["get"] * (1 + rng.below(2)))
-            cs.append({"threads": th, "max": 1500 if tier == "quick" else 30000})
+            cs.append({"threads": th, "max": 1500 if tier == "quick" else 5000})
         return cs
 
     def cases(self, tier, rng):
